@@ -143,6 +143,7 @@ EXEMPT_MODULES = ("pyscsi.utils.enum",)
 
 
 class PackageScan(Unit):
+    native_timeout = 0  # runs long by design (own budgets / child processes): no per-call alarm
     name = "isolation/package-scan"
     properties = ("C09",)
     assumptions = ("C09: import-time initialisation (class bodies doing setattr(SCSICommand, <enum name>, ...)) completes before any command is used",
@@ -200,6 +201,7 @@ class PackageScan(Unit):
 
 
 class DecodeDeterminism(Unit):
+    native_timeout = 0  # runs long by design (own budgets / child processes): no per-call alarm
     """equal inputs give equal results: every command class (constructor CDB, decode, re-encode) and every decoder, called again with the same buffer and arguments after all the
     other decoders have run, returns the same value / raises the same error (native, enumerated buffers)"""
 
@@ -237,6 +239,7 @@ class DecodeDeterminism(Unit):
 
 
 class Retention(Unit):
+    native_timeout = 0  # runs long by design (own budgets / child processes): no per-call alarm
     """a decoded result is the caller's: decoding OTHER data afterwards (same decoder, other values) never changes a
     result handed out earlier.  Every decoder contract of C04 (contracts.datain / contracts.liststep: they build
     well-formed responses from field values) is run natively on three value assignments in a row; the first result
